@@ -462,16 +462,28 @@ def apply_lop(lst, op):
     return l
 
 
+def eff_store(opts, store, defaults):
+    """Spec.CfgOracle.eff_store: a port list that is unset or "auto" at attach time carries its default lines"""
+    s = dict((k, list(v)) for k, v in store.items())
+    for cn, k in opts:
+        if k == 'KPorts':
+            vals = [v for v in store.get(cn, []) if v]
+            if not vals or vals == ['auto']:
+                dl = [] if defaults is None else [v for n, v in defaults if n == cn]
+                s[cn] = [] if dl else list(store.get('__' + cn, []))
+    return s
+
+
 class Sim(object):
     """reference semantics + the finding monitors of Spec/C10.v"""
 
     def __init__(self, table, store, defaults):
         self.opts = options(table)
-        self.store = dict((k, list(v)) for k, v in store.items())
+        self.store = eff_store(self.opts, store, defaults)
         self.defaults = defaults
         self.pend = collections.OrderedDict()
         self.det = set()
-        self.f1 = self.f2 = self.f3 = False
+        self.f1 = self.f3 = False
 
     def clone(self):
         s = Sim.__new__(Sim)
@@ -480,7 +492,7 @@ class Sim(object):
         s.defaults = self.defaults
         s.pend = collections.OrderedDict((k, (v[0], list(v[1]) if v[0] == 'l' else v[1])) for k, v in self.pend.items())
         s.det = set(self.det)
-        s.f1, s.f2, s.f3 = self.f1, self.f2, self.f3
+        s.f1, s.f3 = self.f1, self.f3
         return s
 
     def find(self, name):
@@ -511,7 +523,7 @@ class Sim(object):
         return [('s', x) for x in split_comma(p[1])]
 
     def flags(self):
-        return [self.f1, self.f2, self.f3]
+        return [self.f1, self.f3]
 
     def step(self, op):
         k = op[0]
@@ -529,8 +541,6 @@ class Sim(object):
                 return
             cn, kind = f
             new = apply_lop(self.cur_list(cn, kind), op)
-            if new is None and cn not in self.pend:
-                self.f2 = True
             if cn in self.det:
                 self.f3 = True
             if new is not None:
@@ -574,30 +584,6 @@ def finding_flags(case):
     return s.flags()
 
 
-# ------------------------------------------------------------------ mirror of the predicates of Spec/C11.v
-def multi_then_keyword(items):
-    seen = []
-    prev = None
-    for k, v in items:
-        if v is not None:
-            seen.append(k)
-            prev = k
-        else:
-            if prev is not None and seen.count(prev) > 1:
-                return True
-            prev = None
-    return False
-
-
 def c11_flags(case):
-    table = [tuple(r) for r in case['table']]
-    opts = options(table)
-    ports = [cn for cn, k in opts if k == 'KPorts']
-    store = case['store']
-    f1 = any(not (len(store.get(cn, [])) == 1 and store[cn][0] not in ('auto', '')) for cn in ports)
-    pl = [p.lower() for p in ports]
-    f2 = any(k.lower() in pl for o in case['ops'] if o[0] == 'event' for k, _ in o[1])
-    f3 = any(multi_then_keyword(o[1]) for o in case['ops'] if o[0] == 'event')
-    dfl = case['defaults'] or []
-    f4 = any(k == 'KComma' and any(n == cn and ',' in v for n, v in dfl) for cn, k in opts)
-    return [f1, f2, f3, f4] + finding_flags(case)
+    """Spec/C11.v: the open classes of C11 are those of C10 (the third clause of edit_while_detached needs an event)"""
+    return finding_flags(case)
